@@ -19,12 +19,19 @@ package binary
 //@   ensures alias_is_transparent: typeof(t) == *dsl.NamedType && t.(*dsl.NamedType) != nil ==> result == typeSerializer(t.(*dsl.NamedType).Type, contextNamespace, t.(*dsl.NamedType))
 //@   ensures type_parameter_by_name: typeof(t) == *dsl.GenericTypeParameter && t.(*dsl.GenericTypeParameter) != nil ==> result == formatting.ToSnakeCase(t.(*dsl.GenericTypeParameter).Name) + "_serializer"
 
+//@ observe-args strings.Join
 //@ func typeSerializer@getScalarSerializer
 //@   property C14,C03
 //@   requires t != nil
 //@   names result == scalarSer(t, contextNamespace, namedType)
 //@   ensures single_case_is_transparent: t.Cases.IsSingle() ==> result == typeSerializer(t.Cases[0].Type, contextNamespace, namedType)
 //@   ensures optional_wraps_second_case: !t.Cases.IsSingle() && t.Cases.IsOptional() ==> result == "_binary.OptionalSerializer(" + typeSerializer(t.Cases[1].Type, contextNamespace, namedType) + ")"
+// docs/reference/binary.md, Unions: one index over ALL cases, the null case included (index 0, written as None in the
+// case list). A union with a null case is not an optional of the remaining cases: that would write a flag byte and
+// then an index that starts at the first non-null case.
+//@   ensures a_union_is_one_union_serializer: !t.Cases.IsSingle() && !t.Cases.IsOptional() ==> hasPrefix(result, "_binary.UnionSerializer(") && len(lastArg(strings.Join, 0)) == len(t.Cases)
+//@   invariant 0: rangeindex + 1 > 0 && t.Cases[0].Type == nil ==> len(options) > 0 && options[0] == "None"
+//@   ensures the_null_case_keeps_its_place: !t.Cases.IsSingle() && !t.Cases.IsOptional() && len(t.Cases) > 0 && t.Cases[0].Type == nil ==> lastArg(strings.Join, 0)[0] == "None"
 //@   iteration 0: union_cases_in_order: (c.Type == nil ==> options[i] == "None") && (c.Type != nil ==> options[i] == "(" + classSyntax + "." + formatting.ToPascalCase(c.Tag) + ", " + typeSerializer(c.Type, contextNamespace, namedType) + ")")
 
 //@ spec func gen(t dsl.Type) *dsl.GeneralizedType = t.(*dsl.GeneralizedType)
